@@ -1,6 +1,7 @@
 """C16 Worker shutdown and fork round-trip every worker exactly once (DESIGN.md 4/C16)."""
 import re
 from .common import *
+from .sched import check_poll_clears_one
 from ..engine import AnalysisError, show, strip, short, walk, last_seg
 
 PROP = "C16"
@@ -169,6 +170,8 @@ def run(ctx, F):
     okp = inv.get("Gc", 99) < inv.get("Shutdown", -1) and inv.get("Gc", 99) < inv.get("StopForFork", -1)
     ctx.judge(okp, "C16.priority", "a pending GC is served before exit goals", expected="discriminant(Gc) < discriminant(Shutdown), discriminant(StopForFork)", found=str(goal),
               key="C16.priority|enum")
+    # an exit request that is pending while another goal is taken must stay pending ("every GC worker thread exits")
+    check_poll_clears_one(ctx, F, "C16.priority")
     png = F.fn("scheduler::worker_goals::WorkerGoals::poll_next_goal")
     it = [c for c in live_calls(png) if c.name in ("iter_mut", "iter")]
     ctx.judge(bool(it) and "requests" in show(strip(png.flow.arg_tree(it[0], 0))), "C16.priority", "poll_next_goal scans requests in enum order", expected="self.requests.iter_mut()",
